@@ -352,7 +352,7 @@ SELECTIONS = ["getitem", "getitem", "getitem>loc", "loc>getitem", "getitem>iloc"
 
 
 def make_case(rng, kind, max_m=11, force=None):
-    spec = {"name": "MultiMOORA"} if force == "MultiMOORA-ties" else M.random_spec(rng, KERNEL_NAMES)
+    spec = {"name": "MultiMOORA"} if force == "MultiMOORA-ties" else {"name": "ELECTRE2"} if force == "ELECTRE2-chain" else M.random_spec(rng, KERNEL_NAMES)
     name = spec["name"]
     if kind == "kernel":
         kw = dict(max_m=max_m, max_n=6, min_n=2, ties=rng.choice([0.0, 0.2, 0.5]), dups=rng.choice([0.0, 0.15, 0.3]))
@@ -361,7 +361,16 @@ def make_case(rng, kind, max_m=11, force=None):
             kw["positive"] = rng.random() < 0.6
         dm = M.in_domain_dm(rng, spec, **kw)
         steps = []
-        if name == "MultiMOORA" and (force == "MultiMOORA-ties" or rng.random() < 0.6):
+        if force == "ELECTRE2-chain":
+            # small whole numbers on 6-8 alternatives and 3-5 criteria, permissive thresholds: the distillations then run for three
+            # and more rounds (about a third of such problems), which is where the bookkeeping of the still-unranked alternatives matters
+            m_, n_ = rng.randint(6, 8), rng.randint(3, 5)
+            dm = G.dm_case(rng, m=m_, n=n_, family="dyadic", ties=0.0, dups=0.0)
+            dm["matrix"] = [[float(rng.randint(1, 8)) for _ in range(n_)] for _ in range(m_)]
+            dm["int_matrix"] = rng.random() < 0.5
+            if rng.random() < 0.6:
+                spec.update(p0=0.625, p1=0.5, p2=0.25, q0=0.875, q1=0.75)
+        elif name == "MultiMOORA" and (force == "MultiMOORA-ties" or rng.random() < 0.6):
             # few distinct values and few distinct weights: alternatives then TIE in one of the three component rankings while the
             # other two disagree, which is where the pairwise dominance count depends on how a tie is read
             vals = rng.choice([[1.0, 2.0, 3.0], [1.0, 2.0], [1.0, 2.0, 4.0, 8.0]])
@@ -438,6 +447,9 @@ def gen(ctx):
     # a fixed share of every run: MultiMOORA where component rankings tie, alternatives re-listed
     for _ in range(ctx.n(40, 400)):
         cases.append(make_case(rng, "kernel", max_m=7, force="MultiMOORA-ties"))
+    # … and ELECTRE2 on problems whose distillations run for many rounds, alternatives re-listed
+    for _ in range(ctx.n(30, 300)):
+        cases.append(make_case(rng, "kernel", max_m=9, force="ELECTRE2-chain"))
     return cases
 
 
